@@ -288,6 +288,64 @@ def daemon_blocked_reading(pid, read_fd_hint=None):
     return any_read, detail
 
 
+def pipe_holders(target, exclude=()):
+    """[(pid, fd, state, cmdline)] of every process that has the pipe `target` ('pipe:[ino]') open."""
+    res = []
+    for d in os.listdir("/proc"):
+        if not d.isdigit() or int(d) in exclude:
+            continue
+        try:
+            for fd in os.listdir("/proc/%s/fd" % d):
+                try:
+                    if os.readlink("/proc/%s/fd/%s" % (d, fd)) == target:
+                        with open("/proc/%s/cmdline" % d, "rb") as f:
+                            cl = f.read().replace(b"\0", b" ").decode("utf-8", "replace")[:100]
+                        res.append([int(d), int(fd), proc_state(int(d)), cl])
+                except OSError:
+                    pass
+        except OSError:
+            pass
+    return res[:12]
+
+
+def stall_diagnostics(pid, ebp):
+    """Extra facts about a suspected stall: what each daemon process is reading from, and whether that is the
+    command pipe Python writes to (same pipe inode); unread bytes in that pipe."""
+    out = {"procs": [], "command_pipe_unread": None, "reads_on_command_pipe": 0, "reads_elsewhere": 0}
+    try:
+        cmd_ino = os.fstat(ebp.ebd_write.fileno()).st_ino
+        out["command_pipe_unread"] = fionread(ebp.ebd_write.fileno())
+    except (OSError, ValueError, AttributeError):
+        cmd_ino = None
+    for p in proc_tree(pid):
+        sc = proc_syscall(p)
+        st = proc_state(p)
+        ent = {"pid": p, "state": st, "syscall": sc[0] if sc else None}
+        try:
+            with open("/proc/%d/cmdline" % p, "rb") as f:
+                ent["cmdline"] = f.read().replace(b"\0", b" ").decode("utf-8", "replace")[:120]
+        except OSError:
+            pass
+        if sc and sc[0] == SYS_READ and st != "Z":
+            fd = int(sc[1], 16)
+            ent["fd"] = fd
+            try:
+                ent["target"] = os.readlink("/proc/%d/fd/%d" % (p, fd))
+                ino = os.stat("/proc/%d/fd/%d" % (p, fd)).st_ino
+                ent["is_command_pipe"] = cmd_ino is not None and ino == cmd_ino
+            except OSError:
+                ent["target"] = None
+                ent["is_command_pipe"] = None
+            if ent.get("target", None) and ent["target"].startswith("pipe:") and not ent.get("is_command_pipe"):
+                ent["other_holders"] = pipe_holders(ent["target"], exclude=(p,))
+            if ent.get("is_command_pipe"):
+                out["reads_on_command_pipe"] += 1
+            else:
+                out["reads_elsewhere"] += 1
+        out["procs"].append(ent)
+    return out
+
+
 def fionread(fd):
     import fcntl
     import struct
@@ -297,6 +355,9 @@ def fionread(fd):
         return struct.unpack("i", fcntl.ioctl(fd, termios.FIONREAD, b"\0\0\0\0"))[0]
     except OSError:
         return -1
+
+
+OBSERVED = {}   # counters of near-stalls the monitor deliberately did not report (see StallMonitor.sample)
 
 
 class StallMonitor(threading.Thread):
@@ -331,20 +392,52 @@ class StallMonitor(threading.Thread):
             self.state.pop(id(tr), None)
             return
         n = len(tr.events)
+        diag = None
         if proc_state(pid) is None:
             blocked, detail = True, [(pid, "daemon process gone, pipe still open")]
         else:
             blocked, detail = daemon_blocked_reading(pid)
+            if blocked:
+                # "waiting to read" means waiting for PYTHON: every blocked read must be on the command pipe Python
+                # writes to, and that pipe must hold no unread bytes.  A daemon that waits for a helper of its own
+                # (e.g. a still-running command substitution whose process was re-parented) is merely slow.
+                try:
+                    diag = stall_diagnostics(pid, ebp)
+                except Exception:
+                    diag = None
+                if diag is None or diag["reads_elsewhere"] or not diag["reads_on_command_pipe"] or diag["command_pipe_unread"] != 0:
+                    blocked = False
+                    OBSERVED["daemon_waiting_on_something_else"] = OBSERVED.get("daemon_waiting_on_something_else", 0) + 1
         try:
             empty = fionread(ebp.ebd_read.fileno()) == 0
         except (ValueError, OSError, AttributeError):
             empty = False
+        if blocked and empty:
+            # a read bounded by pkgcore's own alarm (liveness probe) is not an unbounded wait
+            try:
+                if signal.getitimer(signal.ITIMER_REAL)[0] > 0:
+                    blocked = False
+                    OBSERVED["python_read_bounded_by_alarm"] = OBSERVED.get("python_read_bounded_by_alarm", 0) + 1
+            except (OSError, ValueError):
+                pass
+        if blocked and empty and proc_state(pid) is not None:
+            # someone outside the daemon's process tree may still hold the write end of the pipe Python reads
+            try:
+                tree = set(proc_tree(pid))
+                target = os.readlink("/proc/self/fd/%d" % ebp.ebd_read.fileno())
+                for hp, hfd, hst, hcl in pipe_holders(target, exclude=(os.getpid(),)):
+                    if hp not in tree and hst in ("R", "D"):
+                        blocked = False
+                        OBSERVED["outside_writer_still_running"] = OBSERVED.get("outside_writer_still_running", 0) + 1
+            except (OSError, ValueError, AttributeError):
+                pass
         hits, last = self.state.get(id(tr), (0, -1))
         hits = hits + 1 if (blocked and empty and n == last) else 0
         self.state[id(tr)] = (hits, n)
         if hits >= 2:
             tr.stalled = True
             STALLS.append({
+                "diag": diag,
                 "daemon": [list(d) for d in detail],
                 "python_reading_for_s": round(time.monotonic() - since, 2),
                 "last_events": [[k, (p if isinstance(p, str) else p.decode("utf-8", "replace"))[:160]]
